@@ -3,9 +3,9 @@
 package lib
 
 import (
-	"regexp"
 	"fmt"
 	"os"
+	"regexp"
 	"strings"
 	"testing"
 
